@@ -69,6 +69,8 @@ def enc_actions(acts, out):
                 out += [hx(n), hx(al) if al is not None else "_"]
         elif k == "S":
             out += ["S", hx(a[1]), str(a[2])]
+        elif k == "D":
+            out += ["D", hx(a[1])]
         elif k == "C":
             out += ["C", str(len(a[1]))] + [hx(p) for p in a[1]] + [hx(a[2]), str(a[3])]
         elif k == "O":
@@ -180,6 +182,8 @@ def render(rng, acts, ind, sid_of):
             lines.append(pad + s)
         elif k == "S":
             lines.append(pad + "%s = %d" % (a[1].decode(), a[2]))
+        elif k == "D":
+            lines.append(pad + "func set_%s(v) { %s = v }" % (a[1].decode(), a[1].decode()))
         elif k == "C":
             lines.append(pad + "%s.set_%s(%d)" % (".".join(p.decode() for p in a[1]), a[2].decode(), a[3]))
         elif k == "O":
@@ -200,15 +204,29 @@ def render(rng, acts, ind, sid_of):
     return lines
 
 
+def with_prologue(m):
+    """module dict whose body starts with one `x = init` per variable -> body with `x := init; func set_x` per variable"""
+    if m["bad"] or m.get("_pro"):
+        return m
+    nv = len(m["vars"])
+    pro = []
+    for (v, init) in m["vars"]:
+        pro += [("S", v, init), ("D", v)]
+    m["body"] = pro + m["body"][nv:]
+    m["_pro"] = True
+    return m
+
+
 def render_module(rng, m, idx):
     if m["bad"]:
         return "tick(%d, 0)\nx0 := := 1\n" % idx
     lines = ["__n := tick(%d, 0)" % idx]
     body = m["body"]
-    nv = len(m["vars"])
+    nv = 2 * len(m["vars"])
     for (v, init) in m["vars"]:
         lines.append("%s := %d" % (v.decode(), init))
         lines.append("func set_%s(v) { %s = v }" % (v.decode(), v.decode()))
+    assert all(a[0] in ("S", "D") for a in body[:nv]), body[:nv]
     lines += render(rng, body[nv:], 0, lambda a: -1)
     lines.append("tick(%d, 1)" % idx)
     return "\n".join(lines) + "\n"
@@ -282,8 +300,11 @@ class Gen:
             else:
                 parents = [b"/".join(parts[:-1])]
                 quoted = True
-            if rng.chance(1, 4):
+            parent_exists = b"/".join(parts[:-1]) in getattr(self, "names", set())
+            if parent_exists and rng.chance(1, 3):
                 names.append(rng.choice([b"x0", b"x0", b"x1", b"a", b"b", b"sub", b"nosuch"]))
+            elif rng.chance(1, 30):
+                names.append(b"nosuch")
             if rng.chance(1, 8):
                 names.append(names[0])
         imports = []
@@ -332,10 +353,12 @@ class Gen:
         for _ in range(rng.below(4)):
             if earlier and rng.chance(9, 10):
                 t = rng.choice(earlier)
-            else:
+            elif rng.chance(1, 2):
                 t = rng.choice(MISSING)
+            else:
+                continue
             avoid = name if flavour == "dag" else None
-            if t in MISSING and rng.chance(5, 6):
+            if t in MISSING and rng.chance(19, 20):
                 sc2 = {}
                 body.append(("T", [self.import_action(t, sc2, avoid_parent=avoid)]))
             else:
@@ -352,8 +375,8 @@ class Gen:
             body.append(("R", 1, inner))
         if rng.chance(1, 20):
             body.append(("X",))
-        return {"name": name, "ext": rng.choice([b".risor", b".risor", b".rsr"]), "bad": rng.chance(1, 30),
-                "vars": vars_, "body": body}
+        return with_prologue({"name": name, "ext": rng.choice([b".risor", b".risor", b".rsr"]), "bad": rng.chance(1, 30),
+                              "vars": vars_, "body": body})
 
     def tree(self, flavour):
         rng = self.rng
@@ -364,6 +387,7 @@ class Gen:
             if n not in names:
                 names.append(n)
         mods = []
+        self.names = set(names)
         for i, n in enumerate(names):
             mods.append(self.module(n, names[:i], names[i + 1:], flavour))
         # occasionally both extensions exist: the .risor file wins, the .rsr one must never be read
@@ -386,7 +410,7 @@ class Gen:
             r = rng.below(10)
             if r <= 5:
                 t = rng.choice(names) if rng.chance(19, 20) else rng.choice(MISSING)
-                if rng.chance(1, 5):
+                if rng.chance(1, 5) or (t in MISSING and rng.chance(3, 4)):
                     sc2 = dict(scope)
                     body = [self.import_action(t, sc2, force_alias=True)]
                     for _ in range(rng.below(3)):
@@ -404,6 +428,8 @@ class Gen:
             self.probe_identity(scope, acts, expect)
         if rng.chance(1, 2):
             self.probe_globals(scope, acts, expect)
+        if rng.chance(1, 3):
+            self.probe_from(mods, scope, acts, expect)
         return acts, mainvars, expect
 
     def probe_identity(self, scope, acts, expect):
@@ -425,6 +451,33 @@ class Gen:
         expect += [("equal", s1, s2, "two aliases of module %r denote different module objects" % name),
                    ("is", s3, "b:true", "two aliases of module %r compare unequal" % name),
                    ("is", s4, "b:true", "two aliases of module %r show different values of x0" % name)]
+
+    def probe_from(self, mods, scope, acts, expect):
+        """the same (package, name) imported by a one-name and by a several-name from-import must denote one thing"""
+        rng = self.rng
+        have = {m["name"] for m in mods}
+        cands = [m["name"] for m in mods if b"/" in m["name"] and all(is_ascii_ident(p) for p in m["name"].split(b"/"))
+                 and b"/".join(m["name"].split(b"/")[:-1]) in have]
+        if not cands:
+            return
+        t = rng.choice(cands)
+        parts = t.split(b"/")
+        parents, nm = parts[:-1], parts[-1]
+        u, v, w = self.fresh(), self.fresh(), self.fresh()
+        other = rng.choice([o for o in (b"x0", b"x1", b"sub", b"a") if o != nm])
+        multi = [(other, w), (nm, v)]
+        if rng.chance(1, 2):
+            multi.reverse()
+        single = ("F", parents, [(nm, u)], {"quoted": False, "grouped": rng.chance(1, 2), "nl": False, "trail": False})
+        several = ("F", parents, multi, {"quoted": False, "grouped": rng.chance(1, 2), "nl": False, "trail": False})
+        first, second = (single, several) if rng.chance(1, 2) else (several, single)
+        s1, s2 = self.next_sid(), self.next_sid()
+        acts += [first, second, ("O", [u], s1), ("O", [v], s2)]
+        scope[u] = ("unk",)
+        scope[v] = ("unk",)
+        scope[w] = ("unk",)
+        expect.append(("equal-from", s1, s2, "`from %s import %s` bound different things in a one-name and in a several-name statement"
+                       % (b".".join(parents).decode(), nm.decode())))
 
     def probe_globals(self, scope, acts, expect):
         rng = self.rng
@@ -584,6 +637,10 @@ FIXED_TREE = [
     {"name": b"_", "ext": b".risor", "bad": False, "vars": [(b"x0", 98)], "body": [("S", b"x0", 98)]},
     {"name": b"bad", "ext": b".risor", "bad": True, "vars": [], "body": []},
 ]
+
+
+for _m in FIXED_TREE:
+    with_prologue(_m)
 
 
 def unh(tok):
@@ -756,7 +813,10 @@ def parse_model(line):
     for c in (f[2].split() if len(f) > 2 else []):
         g = c.split(":")
         counters[unhx(g[0])] = tuple(int(x) for x in g[1:])
-    acc = f[3].strip() if len(f) > 3 else ""
+    flags = (f[3].strip() if len(f) > 3 else "").split()
+    acc = flags[0] if flags else ""
+    if "fuzzy=1" in flags:
+        outcome = "FUZZY"
     return outcome, evs, counters, acc
 
 
@@ -970,6 +1030,9 @@ def oracle(route, evs, err, labels, expect, cyc_names):
         if ex[0] == "equal":
             if ex[1] in main_obs and ex[2] in main_obs and main_obs[ex[1]] != main_obs[ex[2]]:
                 viol.append(("state", "%s (%s vs %s)" % (ex[3], main_obs[ex[1]], main_obs[ex[2]]), None))
+        elif ex[0] == "equal-from":
+            if ex[1] in main_obs and ex[2] in main_obs and main_obs[ex[1]] != main_obs[ex[2]]:
+                viol.append(("from-binding", "%s (%s vs %s)" % (ex[3], main_obs[ex[1]], main_obs[ex[2]]), "from-binding"))
         elif ex[0] == "is":
             if ex[1] in main_obs and main_obs[ex[1]] != ex[2]:
                 viol.append(("state", "%s (observed %s, expected %s)" % (ex[3], main_obs[ex[1]], ex[2]), None))
@@ -1023,10 +1086,12 @@ def witness_cases():
     cyc1 = {"name": b"cyc1", "ext": b".risor", "bad": False, "vars": [(b"x0", 1)], "body": [("S", b"x0", 1), ("I", b"cyc2", None, "ident")]}
     cyc2 = {"name": b"cyc2", "ext": b".risor", "bad": False, "vars": [(b"x0", 2)], "body": [("S", b"x0", 2), ("I", b"cyc1", None, "ident")]}
     badm = {"name": b"bad", "ext": b".risor", "bad": False, "vars": [(b"x0", 3)], "body": [("S", b"x0", 3), ("X",)]}
-    pkg = {"name": b"pkg", "ext": b".risor", "bad": False, "vars": [(b"x0", 4)], "body": [("S", b"x0", 4)]}
+    pkg = {"name": b"pkg", "ext": b".risor", "bad": False, "vars": [(b"x0", 4), (b"x1", 5)],
+           "body": [("S", b"x0", 4), ("S", b"x1", 5)]}
     pbad = {"name": b"pkg/x0", "ext": b".risor", "bad": False, "vars": [(b"x0", 6)], "body": [("S", b"x0", 6), ("X",)]}
     a = {"name": b"a", "ext": b".risor", "bad": False, "vars": [(b"x0", 10)], "body": [("S", b"x0", 10)]}
-    mods = [selfi, cyc1, cyc2, badm, pkg, pbad, a]
+    pb = {"name": b"pkg/b", "ext": b".risor", "bad": False, "vars": [(b"x0", 50)], "body": [("S", b"x0", 50)]}
+    mods = [with_prologue(m) for m in (selfi, cyc1, cyc2, badm, pkg, pbad, a, pb)]
     mv = [(b"x0", 1), (b"x1", 2)]
     pre = [("S", b"x0", 1), ("S", b"x1", 2)]
     mains = [
@@ -1037,6 +1102,9 @@ def witness_cases():
         (pre + [("I", b"a", None, "ident"), ("I", b"a", b"a2", "quoted"), ("F", [b"a"], [(b"x0", b"ax")], {}),
                 ("O", [b"a"], 1), ("O", [b"a2"], 2), ("Q", [b"a"], [b"a2"], 3), ("O", [b"ax"], 4)], mv,
          [("equal", 1, 2, "two aliases of module b'a' denote different module objects"), ("is", 3, "b:true", "aliases unequal")]),
+        (pre + [("F", [b"pkg"], [(b"b", b"w")], {}), ("F", [b"pkg"], [(b"x1", b"u"), (b"b", b"v")], {"grouped": True}),
+                ("O", [b"w"], 1), ("O", [b"v"], 2)], mv,
+         [("equal-from", 1, 2, "`from pkg import b` bound different things in a one-name and in a several-name statement")]),
     ]
     return mods, mains
 
@@ -1056,7 +1124,7 @@ def body(res, tools, work, proved):
     known_hits = {}
     samples = []
     stats = {"texts": 0, "texts_parsed": 0, "texts_rejected": 0, "texts_model_unsupported": 0, "text_ast_diffs": 0,
-             "programs": 0, "routes": 0, "model_fuel": 0, "model_unbound": 0, "no_depth": 0,
+             "programs": 0, "routes": 0, "model_fuel": 0, "model_unbound": 0, "model_fuzzy": 0, "no_depth": 0,
              "err_classes": {}, "spellings": {}, "reentrant_cases": 0, "retry_cases": 0}
     nontrivial = set()
     evals = 0
@@ -1123,7 +1191,7 @@ def body(res, tools, work, proved):
         if i in model_for:
             mline = mo_out[model_for[i]]
             outcome, mevs, counters, acc = parse_model(mline)
-            if outcome in ("FUEL", "UNBOUND") or mline.startswith("BADINPUT"):
+            if outcome in ("FUEL", "UNBOUND", "FUZZY") or mline.startswith("BADINPUT"):
                 stats["model_fuel"] += 1
                 continue
             if acc != "acc=1":
@@ -1191,8 +1259,8 @@ def body(res, tools, work, proved):
                 stats["routes"] += 1
             stats["err_classes"][o["plain"]["err"]] = stats["err_classes"].get(o["plain"]["err"], 0) + 1
             outcome, mevs, counters, acc = parse_model(mline)
-            if mline.startswith("BADINPUT") or outcome in ("FUEL", "UNBOUND"):
-                stats["model_fuel" if outcome == "FUEL" else "model_unbound"] += 1
+            if mline.startswith("BADINPUT") or outcome in ("FUEL", "UNBOUND", "FUZZY"):
+                stats["model_fuzzy" if outcome == "FUZZY" else ("model_fuel" if outcome == "FUEL" else "model_unbound")] += 1
                 continue
             if acc != "acc=1":
                 corr_diffs.append({"stage": "accepted", "case": case, "model": "generated program not accepted by the model"})
